@@ -36,6 +36,27 @@ def key_field_of_closure(c):
     return None
 
 
+def cmp_key_of_closure(c, two_elements):
+    """field compared by a comparator closure: `|a, b| a.f.cmp(&b.f)` (two_elements) or `|e| e.f.cmp(probe)`; ascending
+    order only (first element on the left). None if the closure has another shape."""
+    e = flow.place_expr(c, [0])
+    if e[0] != "call" or not re.search(r"cmp::Ord(>)?::cmp$", e[1]) or len(e[2]) != 2:
+        return None
+    a, b = e[2]
+
+    def fld(x, argn):
+        if x[0] == "path" and x[1] == ("arg", argn) and len(x[2]) == 1:
+            return x[2][0]
+        return None
+    fa = fld(a, 2)
+    if fa is None:
+        return None
+    if two_elements:
+        return fa if fld(b, 3) == fa else None
+    # the probe must not depend on the element
+    return fa if "('arg', 2)" not in repr(b) else None
+
+
 def closure_arg(prog, body, t, idx):
     """closure body passed as argument idx of call t"""
     op = t["args"][idx]
@@ -116,7 +137,10 @@ def run(ctx, rep):
             search_keys.add((elem.split("::")[-1], None))
             rep.check("C17.a", f"search-key/{fn_key(b)}", elem.endswith("BlobId"), where=where(b, bb), what=f"{fn_key(b)}: binary search over plain {elem.split('::')[-1]} values")
         else:
-            rep.check("C17.a", f"search-key/{fn_key(b)}", False, where=where(b, bb), what=f"{fn_key(b)}: binary_search_by with a custom comparator (cannot be matched to the sort key)")
+            c = closure_arg(prog, b, t, 1)
+            kf = cmp_key_of_closure(c, False) if c else None
+            search_keys.add((elem.split("::")[-1], kf))
+            rep.check("C17.a", f"search-key/{fn_key(b)}", kf == "id", where=where(b, bb), what=f"{fn_key(b)}: binary_search_by comparing the element's `{kf}` with the probe" if kf else f"{fn_key(b)}: binary_search_by with a comparator that is not `element.key.cmp(probe)` (cannot be matched to the sort key)")
     # constructions of TypeIndex
     cons = []
     for b in prog.by_crate["rustic_core"]:
@@ -141,7 +165,8 @@ def run(ctx, rep):
                 c = closure_arg(prog, b, t, 1)
                 oks.append(key_field_of_closure(c) == "id" if c else False)
             elif cd.endswith("_by"):
-                oks.append(False)
+                c = closure_arg(prog, b, t, 1)
+                oks.append(cmp_key_of_closure(c, True) == "id" if c else False)
             else:
                 oks.append(True)
         # every path to the construction passes a sort or the None arm: the sorts are the arms of a match on entries
